@@ -60,7 +60,7 @@ def run(ctx, replay=None):
     ctx.add_stats(r)
     if not r['ok']:
         ctx.violation('design-level: MC_Datetime violated', {'property': ctx.pid, 'mc': 'MC_Datetime', 'out': r['out'][-3000:]})
-    count = ctx.pick(700, 20000)
+    count = ctx.pick(700, 4000)
     with ThreadPoolExecutor(max_workers=8) as ex:
         batches = list(ex.map(lambda tz: worker(tz, ctx.seed, count), ZONES))
     cases = [c for b in batches for c in b]
